@@ -20,3 +20,5 @@ def rules(ctx):
     S.c02_r5_free_leaves_caches(ctx)
     S.tracker_state_rules(ctx)
     S.savepoint_counter_rules(ctx)
+    # eviction I/O happens inside flush_lowest_priority, i.e. under the stripe lock the caller holds
+    S.c08_r1_one_door(ctx)
